@@ -251,6 +251,12 @@ func genGCSData(t *rapid.T, maxN int) gcsData {
 		if rapid.IntRange(0, 3).Draw(t, "mzero") == 0 {
 			d.M = 0
 		}
+		if rapid.Bool().Draw(t, "msmall") { // any small modulus factor, not only powers of two and the default
+			d.M = uint64(rapid.IntRange(2, 5000).Draw(t, "msmallv"))
+			if d.M > uint64(64)<<d.P {
+				d.P = uint8(rapid.IntRange(7, 20).Draw(t, "psmall"))
+			}
+		}
 	default:
 		shift := rapid.IntRange(-1, 6).Draw(t, "mshift")
 		if shift < 0 {
